@@ -120,11 +120,12 @@ theorem tryAdd_ev (mp : Pool) (t : Tx) (feer : Feer) (b : Bool) :
 /-- the insertion stage of `Add` for a transaction whose hash is not pooled -/
 theorem evStep_insertStage {U : Tx → Prop} {mp : Pool} (hi : Inv U mp) (t : Tx) (feer : Feer) (d : Nat)
     (hfresh : mp.vmap t.id = none) :
-    ∃ evs, EvStep mp (insertStage mp t feer d).1 evs := by
+    ∃ evs, EvStep mp (insertStage mp t feer d).1 evs ∧
+      ((insertStage mp t feer d).2 = none → ∃ E, evs = E ++ [{ added := true, id := t.id, data := d }]) := by
   unfold insertStage
   simp only
   split
-  · exact ⟨[], EvStep.refl mp⟩
+  · exact ⟨[], EvStep.refl mp, fun h => by cases h⟩
   · -- eviction (or not), then registration and the added event
     have hpl : ∃ evs, EvStep mp (placeLast mp t) evs ∧ (placeLast mp t).vmap t.id = none := by
       unfold placeLast
@@ -145,7 +146,7 @@ theorem evStep_insertStage {U : Tx → Prop} {mp : Pool} (hi : Inv U mp) (t : Tx
     obtain ⟨e1, h1, hf1⟩ := hpl
     generalize placeLast mp t = mp1 at h1 hf1
     obtain ⟨a1, a2, a3, a4⟩ := tryAdd_ev (register { mp1 with txs := shiftInsert mp1.txs (insertIdx mp.txs t) t } t feer.height d) t feer false
-    refine ⟨e1 ++ [{ added := true, id := t.id, data := d }], h1.trans ⟨?_, ?_, ?_⟩⟩
+    refine ⟨e1 ++ [{ added := true, id := t.id, data := d }], h1.trans ⟨?_, ?_, ?_⟩, fun _ => ⟨e1, rfl⟩⟩
     · exact a1
     · show emit _ _ = _
       unfold emit
@@ -162,10 +163,11 @@ theorem evStep_insertStage {U : Tx → Prop} {mp : Pool} (hi : Inv U mp) (t : Tx
 
 /-- `Add` as a whole -/
 theorem evStep_add {U : Tx → Prop} (hw : WF U) {mp : Pool} (hi : Inv U mp) {t : Tx} (ht : U t) (feer : Feer)
-    (hF : FeerOk feer) (d : Nat) : ∃ evs, EvStep mp (add mp t feer d).1 evs := by
+    (hF : FeerOk feer) (d : Nat) : ∃ evs, EvStep mp (add mp t feer d).1 evs ∧
+      ((add mp t feer d).2 = none → ∃ E, evs = E ++ [{ added := true, id := t.id, data := d }]) := by
   unfold add
   by_cases hdup : (mp.vmap t.id).isSome = true
-  · rw [if_pos hdup]; exact ⟨[], EvStep.refl mp⟩
+  · rw [if_pos hdup]; exact ⟨[], EvStep.refl mp, fun h => by cases h⟩
   · rw [if_neg hdup]
     have hfresh : mp.vmap t.id = none := by
       cases h : mp.vmap t.id with
@@ -176,7 +178,7 @@ theorem evStep_add {U : Tx → Prop} (hw : WF U) {mp : Pool} (hi : Inv U mp) {t 
     | mk mp1 r =>
       rw [hck] at hc
       cases r with
-      | error e0 => exact ⟨[], hc⟩
+      | error e0 => exact ⟨[], hc, fun h => by cases h⟩
       | ok rm =>
         simp only
         obtain ⟨actual, hmp1, hent, _⟩ := checkTxConflicts_ok hw hi ht feer hF hck
@@ -185,7 +187,7 @@ theorem evStep_add {U : Tx → Prop} (hw : WF U) {mp : Pool} (hi : Inv U mp) {t 
         obtain ⟨eo, ho⟩ := evStep_oracleStage hi1 t
         obtain ⟨o1, o2, o3⟩ := oracleStage_spec hw hi1 t
         split
-        · exact ⟨_, hc.trans ho⟩
+        · exact ⟨_, hc.trans ho, fun h => by cases h⟩
         · by_cases hflag : (oracleStage mp1 t).2 = true
           · rw [if_neg (by rw [hflag]; simp)]
             obtain ⟨p1, _, _, p4, _⟩ := o3 hflag
@@ -203,14 +205,16 @@ theorem evStep_add {U : Tx → Prop} (hw : WF U) {mp : Pool} (hi : Inv U mp) {t 
                   rw [hmp1] at this; exact this
                 have := (hi.vmap t.id x).mpr ⟨hx3, hx2⟩
                 rw [hfresh] at this; cases this
-            obtain ⟨ei, hins⟩ := evStep_insertStage q1 t feer d hf3
-            exact ⟨_, ((hc.trans ho).trans hr).trans hins⟩
+            obtain ⟨ei, hins, hlast⟩ := evStep_insertStage q1 t feer d hf3
+            refine ⟨_, ((hc.trans ho).trans hr).trans hins, fun hs => ?_⟩
+            obtain ⟨E, hE⟩ := hlast hs
+            exact ⟨[] ++ eo ++ er ++ E, by rw [hE]; simp⟩
           · have hf : (oracleStage mp1 t).2 = false := by
               cases h' : (oracleStage mp1 t).2 with
               | true => exact absurd h' hflag
               | false => rfl
             rw [if_pos (by rw [hf]; rfl)]
-            exact ⟨_, hc.trans ho⟩
+            exact ⟨_, hc.trans ho, fun h => by cases h⟩
 
 /-! ### RemoveStale -/
 
@@ -296,7 +300,7 @@ theorem evStep_removeStale {U : Tx → Prop} {mp : Pool} (hi : Inv U mp) (isOK :
 theorem evStep_applyOp {U : Tx → Prop} (hw : WF U) {mp : Pool} (hi : Inv U mp) (op : Op) (hop : OpOk U op)
     (hns : ∀ on, op ≠ .setSubs on) : ∃ evs, EvStep mp (applyOp mp op) evs := by
   cases op with
-  | add t feer d => exact evStep_add hw hi hop.1 feer hop.2 d
+  | add t feer d => obtain ⟨evs, h, _⟩ := evStep_add hw hi hop.1 feer hop.2 d; exact ⟨evs, h⟩
   | remove h => exact evStep_removeInternal hi h
   | removeStale isOK feer => exact evStep_removeStale hi isOK feer
   | verify t feer =>
